@@ -33,7 +33,7 @@ m = {
         "name": "gzcheck",
         "path": "/verif/checker",
         "serves_properties": sorted(spec['claimed']),
-        "kind_free_text": "repository-specific static analyser (go/packages + go/types + go/ssa, x/tools v0.29.0): table conformance against embedded/recomputed standards data, sibling agreement after normalisation, error/nil/result discipline on SSA, must-pass-through on the CFG, who-may-write on package state; restricted pure folding of closed loop-free terms",
+        "kind_free_text": "repository-specific static analyser (go/packages + go/types + go/ssa, x/tools v0.29.0): table conformance against embedded/recomputed standards data, sibling agreement after normalisation, error/nil/result discipline on SSA, must-pass-through on the CFG, who-may-write on package state; restricted pure folding (constant propagation with bounded unrolling) of closed terms and of whole small functions over complete finite domains",
     }],
     "checks": checks,
     "notes": spec.get('notes', ''),
